@@ -19,7 +19,7 @@ def _copy_val(v):
         return c
     if isinstance(v, SOpt):
         return SOpt(v.present, _copy_val(v.value))
-    if type(v).__name__ in ("SMap", "SColl"):
+    if type(v).__name__ in ("SMap", "SColl", "SSet"):
         return v.copy()
     return v
 
@@ -105,6 +105,8 @@ def clone_graph(bindings):
             c.members = [[p_, cl(x, depth + 1)] for p_, x in c.members]
             c.live = v
             return c
+        if type(v).__name__ == "SSet":
+            return v.copy()
         if isinstance(v, list):
             return [cl(x, depth + 1) for x in v]
         if isinstance(v, tuple):
